@@ -45,6 +45,16 @@ func lexemes(s string) []string {
 			}
 			out = append(out, s[i:j])
 			i = j
+		case c == '#' || c == '-' && i+1 < len(s) && s[i+1] == '-':
+			// a comment up to and including the end of the line (the tokenizer takes -- without a blank as a comment too)
+			j := strings.IndexByte(s[i:], '\n')
+			if j < 0 {
+				j = len(s)
+			} else {
+				j = i + j + 1
+			}
+			out = append(out, s[i:j])
+			i = j
 		case c == '/' && i+1 < len(s) && s[i+1] == '*':
 			j := strings.Index(s[i+2:], "*/")
 			if j < 0 {
